@@ -3,7 +3,7 @@
   Obj encoding:  {"s":id} str | {"c":kind,"id":n} candidate object | {"n":"p/q"} number | null None |
                  {"o":id} other object | {"t":[..]} tuple | {"l":[..]} list | {"f":[..]} frozenset |
                  {"m":[..]} set | {"d":[[keys..],[values..]]} dict
-  bounds [lo,hi] (null or "p/q"); bound map {"all":[lo,hi]} | {"by":[[key,[lo,hi]],..]};
+  bounds [lo,hi] (null or "p/q"); bound map {"all":[lo,hi]} | {"by":[[key,[lo,hi]],..]} | {"by":[..],"default":[lo,hi]};
   nominator {"k":"basic","blank":b} | {"k":"person","indep":b,"blank":b} | {"k":"party","coal":b,"blank":b}
 -/
 import VotelibDriver.Json
@@ -92,7 +92,9 @@ def parseBoundMap (j : Json) : Except String BoundMap := do
         let bb ← parseBounds b
         pure (kk, bb)
       | _ => throw "bad bound map entry")
-    pure (.byKey m)
+    match j.getObjVal? "default" with
+    | .ok d => pure (.withDefault m (← parseBounds d))
+    | .error _ => pure (.byKey m)
 
 def parseNom (j : Json) : Except String Nominator := do
   let k ← j.getObjValAs? String "k"
